@@ -312,7 +312,13 @@ fn run_history(r: &mut Rng, l: &mut Local, idx: u64, c05_mode: bool) {
     cx.l.count("c12.histories_completed");
     if loop_alive && cx.want == Want::Stopped && cx.stops_requested_effective > 0 {
         cx.l.count("c12.stop_rule_evaluated");
-        if final_state != gv::ImplState::Stopped || cx.last_lifecycle != Some("Stopped") {
+        if final_state == gv::ImplState::Connected && cx.client.protocol_state() == gv::EngineState::PendingConnack {
+            // The stop arrived during the CONNECT/CONNACK handshake and the server is silent. The
+            // handshake is bounded by the establishment deadline the engine has armed (too far away to
+            // wait for here when it is the 30 s default); an implementation may let the handshake end
+            // before it stops. Not judged - the histories with a 3 ms deadline do reach the verdict.
+            cx.l.count("c12.stop_waiting_for_handshake_deadline_not_judged");
+        } else if final_state != gv::ImplState::Stopped || cx.last_lifecycle != Some("Stopped") {
             let swd = cx.stop_with_disconnect_pending;
             let ps = format!("{:?}", cx.client.protocol_state());
             cx.viol("C12.R4-stop-did-not-stop", &[("final_state", format!("{:?}", final_state)), ("stop_with_disconnect", swd.to_string()), ("protocol_state", ps)], format!("the last request was stop, the transport has nothing more to deliver, but the client is in {:?} and the last lifecycle event is {:?}", final_state, cx.last_lifecycle));
